@@ -300,6 +300,44 @@ def key_rule(chk, rid, runs):
                                    "level is judged by a rule that only fits the other"), rel=run_.rel, node=n)
 
 
+def chosen_storage_rule(chk, ctx, runs):
+    """Mixed: the constructor takes one storage for all checkpoints and stores it in one attribute; the budget
+    (`snapshots` units) is declared for that storage only, so every checkpoint write must name that attribute's value.
+    A literal label (or another attribute) puts a checkpoint into a storage whose budget is 0."""
+    from .c01 import label_repr, labels_agree
+    cname = "MixedCheckpointSchedule"
+    try:
+        rel, c, f = ctx.repo.resolve_method(cname, "__init__")
+    except Exception:
+        return
+    attrs = [t.attr for x in ast.walk(f) if isinstance(x, ast.Assign) and isinstance(x.value, ast.Name) and x.value.id == "storage"
+             for t in x.targets if isinstance(t, ast.Attribute) and isinstance(t.value, ast.Name) and t.value.id == "self"]
+    for run_ in runs:
+        if run_.cname != cname:
+            continue
+        for rec in recs(run_.interp):
+            if rec.kind != "Forward":
+                continue
+            v = rec.arg(4, "storage")
+            if v == WORK:
+                continue
+            cons = ycons(run_, rec) + "/chosen"
+            if len(attrs) != 1:
+                chk.decide("C03.DECLARED", cons, None, f"the constructor stores its `storage` argument in {attrs}", rel=run_.rel, node=rec.node)
+                continue
+            st = rec.state
+            lab, ref = label_repr(st, v, run_.interp), label_repr(st, Lin.sym("self." + attrs[0]), run_.interp)
+            if lab is not None and ref is not None and lab[0] == "sym" and lab[1] == ref[1]:
+                ok = True
+            else:
+                ok = labels_agree(lab, ref)
+            chk.decide("C03.DECLARED", cons, ok,
+                       f"checkpoint written to {ast.unparse(rec.node.value.args[4]) if len(rec.node.value.args) > 4 else lab}; the "
+                       f"budget is declared for self.{attrs[0]}" + ("" if ok else
+                       ": in a configuration where they differ the checkpoint goes to a storage with no declared units"),
+                       rel=run_.rel, node=rec.node, nontrivial=False)
+
+
 def slots_rule(chk, ctx):
     """Revolve family: the slot counts handed to the sequence builders and recorded by the base class are the declared
     unit counts - level 0 (RAM) gets snapshots_in_ram, level 1 (DISK) snapshots_on_disk, the number of steps is max_n - 1.
@@ -408,5 +446,6 @@ def run(chk, ctx):
     kind_rules(chk, runs)
     key_rule(chk, "C03.TRACK", runs)
     slots_rule(chk, ctx)
+    chosen_storage_rule(chk, ctx, runs)
     chk.note("not decided: that the slot arguments (cmem, cvect) of the Revolve/H-Revolve dynamic programs bound the number "
              "of simultaneously held checkpoints - a statement about run-time table values")
